@@ -234,6 +234,10 @@ def parse_opts(lines):
             un = lambda x: x.replace('\\"', '"').replace('\\\\', '\\') if lit else x.replace('\\"', '"')
             res.append((kind, un(m.group(2)), un(m.group(3)) if lit else m.group(3).replace('\\"', '"')))
             continue
+        m = re.match(r'havoc\s+"((?:[^"\\]|\\.)*)"\s*=>\s*"((?:[^"\\]|\\.)*)"\s*$', s, re.S)
+        if m:
+            res.append(('havoc', m.group(1).replace('\\"', '"'), m.group(2).replace('\\"', '"')))
+            continue
         m = re.match(r'inv\s+(\d+)\s*<<<(.*)>>>\s*$', s, re.S)
         if m:
             res.append(('inv', int(m.group(1)), m.group(2)))
@@ -300,6 +304,32 @@ def transform_body(body, opts, log, lost):
                     continue
                 raise LostAnchor('rewrite regex not found: %r' % o[1][:60])
             log.append(('T6', 'regex rewrite (x%d): %s  =>  %s' % (n, o[1], o[2])))
+    for o in opts:
+        if o[0] == 'havoc':
+            # T6 statement abstraction: every statement whose text starts with the regex is replaced by
+            # `<lhs> = <shim>;` -- the shim returns an arbitrary value of the right type, so the result
+            # over-approximates the replaced statement (frame = exactly its left-hand side)
+            cl = rsrc.blank(body)
+            pat = re.compile(r'(?m)^[ \t]*(' + o[1] + r')')
+            outb, pos, cnt = [], 0, 0
+            for m in pat.finditer(cl):
+                if m.start(1) < pos:
+                    continue
+                a, b = find_stmt_bounds(body, cl, m.start(1))
+                stmt = body[a:b]
+                eq = re.search(r'(\+|-|\*|/)?=(?!=)', rsrc.blank(stmt))
+                if not eq:
+                    continue
+                lhs = stmt[:eq.start()].rstrip()
+                outb.append(body[pos:a])
+                outb.append(lhs + ' = ' + o[2] + ';')
+                log.append(('T6', 'statement abstracted to `%s = %s`: %s' % (lhs.strip(), o[2], re.sub(r'\s+', ' ', stmt.strip())[:160])))
+                pos = b
+                cnt += 1
+            outb.append(body[pos:])
+            body = ''.join(outb)
+            if cnt == 0:
+                raise LostAnchor('havoc pattern matched no statement: %r' % o[1][:60])
     # splices, performed right-to-left so positions stay valid.  A ghost anchor
     # that no longer exists is NOT fatal: the text is skipped and recorded in
     # `lost` (the function is then verified without that hint).
@@ -467,10 +497,21 @@ def expand(unit):
                 derive = spec.pop()[len('derive('):-1]
             if spec and spec[-1].startswith('exec_const('):
                 exec_const = spec.pop()[len('exec_const('):-1]
+            subs = []
+            while spec and spec[-1].startswith('sub('):
+                a_, b_ = spec.pop()[len('sub('):-1].split('=>')
+                subs.append((a_.strip(), b_.strip()))
+            if spec and spec[-1].startswith('derive(') and derive is None:
+                derive = spec.pop()[len('derive('):-1]
             file, path = spec[0], spec[1:]
             it = source(file).find(path)
             log = []
             txt = transform_item(it.text(), derive, log)
+            for a_, b_ in subs:
+                if a_ not in txt:
+                    raise LostAnchor('type substitution anchor %r not found in %s' % (a_, ' :: '.join(path)))
+                txt = txt.replace(a_, b_)
+                log.append(('T3', 'type substituted by an opaque model: %s => %s' % (a_, b_)))
             if exec_const is not None:
                 mm = re.match(r'\s*(pub\s+)?const\s+(\w+)\s*:\s*([^=]+?)\s*=\s*(.*);\s*$', txt, re.S)
                 if not mm:
